@@ -177,7 +177,10 @@ where
 
     // Prepare the default SolOut (wrapping user callback if provided)
     let n_states = y0.len();
-    let mut default_solout = DefaultSolOut::new(f, options.t_eval.clone(), options.dense_output, options.first_step, x0, n_states);
+    // The handler pins the first reported point to x0 +/- first_step; that point only exists
+    // when first_step does not exceed the interval.
+    let first_output = options.first_step.filter(|h| h.abs() <= (xend - x0).abs());
+    let mut default_solout = DefaultSolOut::new(f, options.t_eval.clone(), options.dense_output, first_output, x0, n_states);
 
     // Dispatch by method
     let result = match options.method {
